@@ -720,6 +720,10 @@ THEOREMS = (
     "panner_none_iff",
     "downmix_nonneg_unit",
     "stereo_level",
+    "extra_mem_iff",
+    "extra_all_mid_of_empty_layer",
+    "extra_margin",
+    "extra_sorted",
     "tables_wellFormed",
     "tables_ten",
     "C05_partial",
@@ -753,7 +757,8 @@ class C05(Spec):
         "a case is one (layout, direction) evaluated on the real panner (search) or one (region object | wrapper | whole panner, "
         "direction) compared between the real code and the Lean model (correspondence); directions: Fibonacci sphere, all "
         "vertex pairs of all regions as great-circle arcs with offsets 0, +-1e-12..1e-3 rad across, vertices, loudspeakers, "
-        "poles, horizontal plane; layouts: ten nominal + seeded admissible symmetric real layouts + fixed asymmetric catalogue; "
+        "poles, horizontal plane; layouts: ten nominal + seeded admissible symmetric real layouts + fixed boundary-valued catalogue (positions exactly "
+        "on the inclusive ends of the permitted ranges) + fixed asymmetric catalogue; "
         "non-trivial = direction within 1e-3 rad of a region boundary, vertex or pole"
     )
 
@@ -930,8 +935,8 @@ SPEC = C05()
 REGISTRY = dict(
     text="PARTIAL: Lean theorems over the reals, for every loudspeaker position and direction (Earverif.PointSource."
     "triplet_nonneg, triplet_norm_le_one, triplet_unit_of_strict, triplet_of_comb, triplet_exact_at_vertex, triplet_mirror, "
-    "ngon_nonneg_unit, quad_nonneg_unit, quad_corner, first_accept_inherits, first_accept_none_iff, panner_inherits, panner_none_iff, downmix_nonneg_unit, stereo_level; "
-    "conjunction C05_partial) prove that every region handler and wrapper of the point-source panner returns non-negative "
+    "ngon_nonneg_unit, quad_nonneg_unit, quad_corner, first_accept_inherits, first_accept_none_iff, panner_inherits, panner_none_iff, downmix_nonneg_unit, stereo_level, extra_mem_iff, "
+    "extra_all_mid_of_empty_layer, extra_margin, extra_sorted; conjunction C05_partial) prove that every region handler and wrapper of the point-source panner returns non-negative "
     "gains of unit power (0+2+0: between -3 dB and 0 dB), is exact at a vertex, is mirror-invariant, and that the panner "
     "inherits these from the first accepting region and returns no result iff every region rejects; table obligations "
     "(tables_wellFormed, decide +kernel) on the region tables regenerated from configure() for the ten nominal layouts. "
@@ -940,7 +945,9 @@ REGISTRY = dict(
     note="Trusted: Lean kernel, hand transliteration of point_source.py tied by Float correspondence on every region object, "
     "wrapper and whole nominal panner; np.linalg.inv / np.roots / ngon_vertex_order / Qhull are parameters or extracted data. "
     "Search: Fibonacci sphere + every region edge arc with offsets 1e-12..1e-3 + vertices + poles + horizontal plane on nominal, "
-    "generated admissible symmetric and a fixed asymmetric catalogue of real layouts.",
+    "generated admissible symmetric real layouts, a fixed catalogue of boundary-valued real layouts (every channel at each "
+    "inclusive end of its az/el range, screen loudspeakers at exactly 5/25/35/60 degrees and one ulp inside) and a fixed "
+    "asymmetric catalogue.",
     technique="Lean 4 algebraic proofs over the reals on a scalar-polymorphic model + regenerated region tables (decide +kernel) "
     "+ differential correspondence with the real region objects + boundary-directed search of the property on the real panner",
     design_ref="DESIGN.md section 4, C05",
